@@ -205,6 +205,18 @@ pub fn check_case(c: &XzCase, prop: &str, rep: &mut Report) -> bool {
     let o = api::xz_bytes(&lay.bytes);
     let content = f.content();
     let mut vs = vec![];
+    if c.accept && o.verdict == Verdict::Ok && lay.bytes.len() < 4000 {
+        // C03 says "decompression succeeds" - through whatever BufRead the caller has
+        for frags in [vec![1usize], vec![5, 2]] {
+            let mut src = crate::d_reader::LogSrc::new(&lay.bytes, frags.clone(), false);
+            let mut out = vec![];
+            let r = crate::io::catch(|| lzma_rs::xz_decompress(&mut src, &mut out));
+            if !matches!(r, crate::io::Caught::Done(Ok(()))) || out != content {
+                vs.push(format!("rejected or mis-decoded when the source exposes fragments {:?}", frags));
+                break;
+            }
+        }
+    }
     match o.verdict {
         Verdict::Panic => vs.push(format!("panic: {}", o.msg)),
         Verdict::Ok => {
@@ -335,6 +347,81 @@ pub fn big_valid(prop: &str, rep: &mut Report) {
             rep.sample(json!({"origin": "big_valid", "blocks": 131, "bytes": lay.bytes.len(), "check": check}));
         }
     }
+}
+
+/// C03: every multi-byte integer field driven to the values where its encoding changes width
+/// (127/128/129, 16383/16384/16385, 2^21 - 1 / 2^21 / 2^21 + 1): uncompressed size, compressed size,
+/// unpadded size, number of records - each file also decoded through fragmenting readers.
+pub fn varint_boundaries(prop: &str, rep: &mut Report) {
+    use crate::d_reader::LogSrc;
+    let raw_stream = |l: usize| -> (Vec<u8>, Vec<u8>) {
+        let data: Vec<u8> = (0..l).map(|i| (i * 13 % 251) as u8).collect();
+        if l == 0 {
+            return (vec![0], vec![]);
+        }
+        let chunks: Vec<Chunk> = data.chunks(65536).enumerate().map(|(i, c)| Chunk::Raw { reset: i == 0, data: c.to_vec() }).collect();
+        let (s, o, _) = lzma2_stream(&chunks);
+        (s, o)
+    };
+    let mut files: Vec<(String, XzFile)> = vec![];
+    for l in [126usize, 127, 128, 129, 16383, 16384, 16385, (1 << 21) - 1, 1 << 21, (1 << 21) + 1] {
+        for check in [0u8, 1, 4] {
+            if l > 100000 && check != 1 {
+                continue;
+            }
+            let (s, o) = raw_stream(l);
+            let mut f = XzFile { check, ..Default::default() };
+            f.blocks.push(XzBlock { payload: s, content: o, has_packed: true, has_unpacked: true, ..Default::default() });
+            files.push((format!("content={} check={}", l, check), f));
+        }
+    }
+    // compressed size / unpadded size exactly at a boundary: payload = content + 3 + 1 for one raw chunk
+    for target_payload in [127usize, 128, 129, 16383, 16384, 16385] {
+        let (s, o) = raw_stream(target_payload - 4);
+        let mut f = XzFile { check: 1, ..Default::default() };
+        f.blocks.push(XzBlock { payload: s, content: o, has_packed: true, has_unpacked: false, ..Default::default() });
+        files.push((format!("packed={}", target_payload), f));
+    }
+    for target_unpadded in [127usize, 128, 129, 16384] {
+        // unpadded = header(12) + payload + check(4)
+        let (s, o) = raw_stream(target_unpadded - 12 - 4 - 4);
+        let mut f = XzFile { check: 1, ..Default::default() };
+        f.blocks.push(XzBlock { payload: s, content: o, ..Default::default() });
+        files.push((format!("unpadded={}", target_unpadded), f));
+    }
+    for nblocks in [127usize, 128, 129] {
+        let mut f = XzFile { check: 4, ..Default::default() };
+        for i in 0..nblocks {
+            let (s, o) = raw_stream(1 + i % 3);
+            f.blocks.push(XzBlock { payload: s, content: o, has_unpacked: i % 2 == 0, ..Default::default() });
+        }
+        files.push((format!("records={}", nblocks), f));
+    }
+    for (name, f) in files {
+        let lay = f.serialize();
+        let content = f.content();
+        let o = api::xz_bytes(&lay.bytes);
+        rep.eval(hash_of(&name), true);
+        let mut bad: Option<String> = None;
+        if o.verdict != Verdict::Ok || o.out != content {
+            bad = Some(format!("{:?} {}", o.verdict, o.msg));
+        } else if lay.bytes.len() < 300000 {
+            for frags in [vec![1usize], vec![7, 1, 3], vec![8192]] {
+                let mut src = LogSrc::new(&lay.bytes, frags.clone(), false);
+                let mut out = vec![];
+                let r = crate::io::catch(|| lzma_rs::xz_decompress(&mut src, &mut out));
+                let ok = matches!(r, crate::io::Caught::Done(Ok(())));
+                if !ok || out != content {
+                    bad = Some(format!("through a source exposing fragments {:?}: rejected or mis-decoded", frags));
+                    break;
+                }
+            }
+        }
+        if let Some(b) = bad {
+            rep.violation(prop, format!("well-formed file ({}) rejected or mis-decoded: {}", name, b), json!({"kind": "xzbytes", "file_hex": if lay.bytes.len() < 40000 { hex(&lay.bytes) } else { String::new() }, "expect_hex": if content.len() < 40000 { hex(&content) } else { String::new() }, "name": name}));
+        }
+    }
+    rep.sample(json!({"origin": "varint_boundaries", "values": [126, 127, 128, 129, 16383, 16384, 16385, 2097151, 2097152, 2097153], "fields": ["uncompressed size", "compressed size", "unpadded size", "number of records"]}));
 }
 
 pub fn flips(prop: &str, seed: u64, nfiles: usize, rep: &mut Report) {
